@@ -35,6 +35,7 @@ def per_actor(log):
 class C02(core.Prop):
     id = "C02"
     drivers = ["s4u_interp"]
+    ready = True
     sizes = {"quick": 150, "thorough": 5000}
     max_workers = 5
     flaky_ok = True
